@@ -75,6 +75,21 @@ def has_lazy(g, i):
     return bool(c and 'e' in c and walk(c['e']))
 
 
+def upstream(g, i):
+    """The cells cell i reads, directly or not (itself included)."""
+    seen, stack = set(), [i]
+    while stack:
+        x = stack.pop()
+        if x in seen or x not in g.cells:
+            continue
+        seen.add(x)
+        stack.extend(G.deps(g, x))
+        c = g.cells[x]
+        if c['k'] == 'sp':
+            stack.append(c['anchor'])
+    return seen
+
+
 def main():
     rep = Report(PID)
     thorough = tier() == 'thorough'
@@ -131,6 +146,7 @@ def main():
         results = run_cyjobs(wd, jobs)
         expected = {i: set(tuple(c) for c in o['cycles']) for i, o in enumerate(obl)}
         traces, trace_of = [], []
+        by_wb = {}
         idx = {s: k_ for k_, s in enumerate(seeds)}
         for (hs, jf, of_), (hs2, out) in zip(jobs, results):
             gidx = json.load(open(jf))['gidx']
@@ -168,15 +184,30 @@ def main():
                                   {'workbook_seed': rec['seed'], 'path': rec['path'], 'hashseed': hs,
                                    'exc': rec['exc'], 'workbook': c03.describe(g)})
                     continue
+                circ = V.E('CIRC')
+                by_wb.setdefault(rec['seed'], []).append((hs, rec['path'], rec['obs']))
+                # cells marked although evaluation by need gives them a value, with an
+                # IF / IFERROR somewhere in what they read: the recorded static-cut finding;
+                # whatever reads such a cell differs as a consequence of it
+                false_marks = {j for j, ej in exp.items()
+                               if ej != circ and rec['obs'].get(j) == circ
+                               and any(has_lazy(g, x) for x in upstream(g, j))}
                 for i, e in exp.items():
                     o = rec['obs'].get(i)
                     if o is None or not V.matches(e, o):
-                        circ = V.E('CIRC')
                         if e == circ and o is not None and (
                                 has_interceptor(g, i) or (o.get('k') == 'e' and o != circ)):
                             # the marked cell's formula was evaluated once on the mark
                             sig = {'cat': 'cycle-cell-shows-its-formula-evaluated-on-the-mark'}
                         elif e != circ and o == circ and has_lazy(g, i):
+                            sig = {'cat': 'cycle-through-unselected-branches-not-resolved'}
+                        elif e != circ and (upstream(g, i) & false_marks):
+                            sig = {'cat': 'cycle-through-unselected-branches-not-resolved'}
+                        elif e != circ and has_lazy(g, i) and has_interceptor(g, i) and \
+                                any(i in upstream(g, d) for d in G.deps(g, i)):
+                            # the cell lies on a static cycle that evaluation by need never
+                            # enters; the mark put on one of its inputs is consumed by the
+                            # cell's own ISERROR / IFERROR / COUNT
                             sig = {'cat': 'cycle-through-unselected-branches-not-resolved'}
                         else:
                             sig = {'kind': 'value', 'seed': rec['seed'], 'cell': i,
@@ -186,6 +217,25 @@ def main():
                                             'observed': V.show(o) if o else None,
                                             'workbook': c03.describe(g),
                                             'how': 'finish(circular=True).calculate() with a watchdog'})
+        # ---- the outcome does not depend on the hash seed or the load path -------------
+        for s_, runs in by_wb.items():
+            ref_hs, ref_path, ref = runs[0]
+            for hs_, path_, obs in runs[1:]:
+                diff = [i for i in set(ref) | set(obs)
+                        if (V.show(ref[i]) if ref.get(i) else None) != (V.show(obs[i]) if obs.get(i) else None)]
+                if diff:
+                    i = sorted(diff)[0]
+                    rep.violation({'kind': 'hash-seed-or-path-dependence', 'seed': s_, 'cell': i},
+                                  {'workbook_seed': s_, 'cell': i,
+                                   'run_a': {'hashseed': ref_hs, 'path': ref_path,
+                                             'value': V.show(ref[i]) if ref.get(i) else None},
+                                   'run_b': {'hashseed': hs_, 'path': path_,
+                                             'value': V.show(obs[i]) if obs.get(i) else None},
+                                   'all_differing_cells': sorted(diff)[:8],
+                                   'workbook': c03.describe(gens[s_]),
+                                   'how': 'the same workbook calculated with finish(circular=True) '
+                                          'under different PYTHONHASHSEED values / load paths'})
+                    break
         # ---- trace validation of the yields on the larger graphs ----------------
         files = []
         for k_, part in enumerate(shards(traces, NCPU)):
